@@ -81,6 +81,7 @@ RArccosh(a) == CHOOSE r \in Rational : TRUE
 RArctanh(a) == CHOOSE r \in Rational : TRUE
 RPow(a, b)  == CHOOSE r \in Rational : TRUE     \* a^b for real b
 RFiniteD(a) == CHOOSE t \in BOOLEAN : TRUE      \* a is representable as a finite double
+RRoundToDouble(a) == CHOOSE r \in Rational : TRUE   \* the IEEE double nearest to a (an exact rational again)
 RErf(a)     == CHOOSE r \in Rational : TRUE
 RLGamma(a)  == CHOOSE r \in Rational : TRUE
 \* sign of Wolff's windowing function exp(-W/tau) - tau/sqrt(W N),
